@@ -283,6 +283,21 @@ pub fn structural_probes() -> Vec<Probe> {
         };
         v.push(Probe { name: format!("sink_program_{}", v.len()), class: "covariant-sink|program: &'gc T parked in the root through a GcBuilder".into(), negative: body("&String", "s.as_ref()", "&'gc String"), twin: body("&'static String", "&FIXED", "&'static String") });
     }
+    // exported macros contain unsafe blocks; a caller-supplied operand evaluated inside one would let
+    // a program without `unsafe` transmute a brand away
+    for (n, tpl) in [
+        ("unsize!", "fn probe<'gc>(mc: &Mutation<'gc>) { let g = Gc::new(mc, [1u8, 2]); let _s: Gc<'gc, [u8]> = gc_arena::unsize!(OPERAND => [u8]); }"),
+        ("unsize! rebrand", "fn probe<'gc>(mc: &Mutation<'gc>) -> Gc<'static, [u8]> { let g = Gc::new(mc, [1u8, 2]); gc_arena::unsize!(REBRAND => [u8]) }"),
+        ("field!", "#[derive(Collect)]\n#[collect(no_drop)]\nstruct Nd<'gc> { f: RefLock<Option<Gc<'gc, u8>>> }\nfn probe<'gc>(mc: &Mutation<'gc>) { let w = Gc::write(mc, Gc::new(mc, Nd { f: RefLock::new(None) })); let _c = gc_arena::barrier::field!(OPERAND2, Nd, f); }"),
+        ("unlock!", "#[derive(Collect)]\n#[collect(no_drop)]\nstruct Nd<'gc> { f: RefLock<Option<Gc<'gc, u8>>> }\nfn probe<'gc>(mc: &Mutation<'gc>) { let w = Gc::write(mc, Gc::new(mc, Nd { f: RefLock::new(None) })); let _c = gc_arena::barrier::unlock!(OPERAND2, Nd, f); }"),
+    ] {
+        let neg = tpl
+            .replace("OPERAND2", "{ let _x: i8 = std::mem::transmute::<u8, i8>(1u8); w }")
+            .replace("OPERAND", "{ let _x: i8 = std::mem::transmute::<u8, i8>(1u8); g }")
+            .replace("REBRAND", "std::mem::transmute::<Gc<'gc, [u8; 2]>, Gc<'static, [u8; 2]>>(g)");
+        let twin = tpl.replace("OPERAND2", "w").replace("OPERAND", "g").replace("-> Gc<'static, [u8]>", "-> Gc<'gc, [u8]>").replace("REBRAND", "g");
+        v.push(Probe { name: format!("macro_operand_{}", v.len()), class: format!("unsafe-operation-in-macro-operand|{n}"), negative: format!("{PRELUDE}\n{neg}\nfn main() {{}}\n"), twin: format!("{PRELUDE}\n{twin}\nfn main() {{}}\n") });
+    }
     // the static_collect! macro must not produce an impl usable with a branded (non-'static) type
     let sc: [(&str, &str, &str, &str); 3] = [
         ("generic arm naming the macro's own 'gc", "struct B<'a, T>(&'a T);\nstatic_collect!(<T> B<'gc, T>);", "B<'gc, std::cell::Cell<u8>>", "struct B<'a, T>(&'a T);\nstatic_collect!(<T> B<'static, T>);\nfn ok<'gc>() { need::<'gc, B<'static, u8>>(); }"),
@@ -364,7 +379,9 @@ pub fn run(tc: &Toolchain, probes: &[Probe], threads: usize) -> C12Report {
         fams.sort();
         fams.dedup();
         const EXPECTED: [&str; 16] = ["E0277", "E0521", "E0597", "E0716", "E0308", "E0310", "E0477", "E0478", "E0491", "E0373", "E0495", "E0759", "E0515", "lifetime-may-not-live-long-enough", "not-general-enough", "borrowed-data-escapes"];
-        if !fams.iter().any(|f| EXPECTED.contains(&f.as_str())) {
+        // the macro-operand probes are about unsafe operations: there E0133 is the expected family
+        let expected_here = |f: &str| if p.class.starts_with("unsafe-operation-in-macro-operand") { f == "E0133" } else { EXPECTED.contains(&f) };
+        if !fams.iter().any(|f| expected_here(f.as_str())) {
             rep.generator_faults.push(format!("{}: rejected, but with none of the expected diagnostic families: {fams:?}", p.class));
             continue;
         }
